@@ -30,7 +30,12 @@ RULE = ("(a) Hypothesis: expanded expressions with every object kind the "
         "Oracle: round trip str -> import_from_sympy_latex -> re-apply "
         "assumptions: equal value on an F_p model (operators as "
         "position-tagged tensors), equal multiset of (tensor name, class), "
-        "equal re-printed text. Non-trivial: >= 2 object kinds and one of: "
+        "equal re-printed text. (c) coverage-guided stage: on 2 (quick) / 4 "
+        "(thorough) of the 16 shards libFuzzer (atheris, adcgen imported "
+        "under atheris.instrument_imports) mutates the byte buffer that "
+        "Hypothesis decodes into a case of (a) (fuzz_one_input), same "
+        "oracle inside the target, seeded pseudo-random starting corpus. "
+        "Non-trivial: >= 2 object kinds and one of: "
         "fraction, spin label, numbered name, NO group, exponent.")
 BUDGET = {"quick": 100, "thorough": 1500}
 N_EXAMPLES = {"quick": 500, "thorough": 12000}
@@ -449,6 +454,13 @@ def run_shard(col, shard, nshards, seed, tier):
     mine = cases[shard::nshards][::step]
     for c in mine:
         col.run(c, run_case)
+    if getattr(col, "atheris", False):
+        # coverage-guided stage (thorough tier, 4 of 16 shards): does not
+        # return, the collector is written by col.finish()
+        from ..runner import drive_atheris
+        col.classes["atheris_shards"] += 1
+        col.extra = {"library_outputs_run": len(mine)}
+        drive_atheris(strategy(tier), run_case, col, seed * 1000 + shard)
     drive(strategy(tier), run_case, N_EXAMPLES[tier], seed * 1000 + shard,
           col)
     return {"library_outputs_run": len(mine)}
